@@ -414,4 +414,8 @@ def run(P, R, tier):
     _c04.lookup_skips(P, R4, cl4)
     from .. import holds
     holds.soft_hold_typestate(P, R, 'C05.GRD.4')
+    # "OK from a named service" is read from the bit of that service's slot
+    c11.ok_query(P, R, 'C05.GRD.5')
+    # relayed texts end where the line ends: CR LF is one terminator
+    c08.line_splitting(P, R, 'C05.TAB.4')
     return EXPLANATION, ASSUMPTIONS
